@@ -7,6 +7,7 @@ package c03
 //   c03.parsePort    types.ParsePortConfig         vs Short.parsePort
 //   c03.canonical    transform.Canonical           vs Short.canonical
 //   c03.decode       (*types.X).DecodeMapstructure vs Short.decodeX
+//   c03.twoDocs      Canonical ∘ override.Merge ∘ Canonical at services.s.<attr>  vs Short.twoDocsAt
 //   c03.pathClean    path.Clean                    vs Short.pathClean
 //   c03.validIP      net.ParseIP != nil            vs Short.validIP
 // direct oracles (the property decided on the real code):
@@ -28,6 +29,7 @@ import (
 	"time"
 
 	"github.com/compose-spec/compose-go/v2/format"
+	"github.com/compose-spec/compose-go/v2/override"
 	"github.com/compose-spec/compose-go/v2/transform"
 	"github.com/compose-spec/compose-go/v2/tree"
 	"github.com/compose-spec/compose-go/v2/types"
@@ -107,7 +109,74 @@ func realCanonical(raw json.RawMessage) any {
 	if err != nil {
 		return map[string]any{"err": errClass(err)}
 	}
-	return map[string]any{"ok": core.EncodeVal(r)}
+	out := map[string]any{"ok": core.EncodeVal(r)}
+	// the input was decoded from JSON, so it is a tree on the heap: any node reachable by two paths of the result was
+	// shared by Canonical itself (a later in-place stage — override.Merge of the next file — would edit both positions)
+	if al := aliasScan(r); al != nil {
+		out["aliased"] = al
+	}
+	return out
+}
+
+// aliasScan walks a YAML tree on the real heap and reports the first mutable node (non-empty map, non-empty slice
+// backing array) that is reachable by two different paths: {"first": path, "second": path, "pattern": generalised path}.
+func aliasScan(v any) map[string]any {
+	seen := map[uintptr][]string{}
+	var found map[string]any
+	var walk func(v any, p []string)
+	walk = func(v any, p []string) {
+		if found != nil {
+			return
+		}
+		var ptr uintptr
+		switch x := v.(type) {
+		case map[string]any:
+			if len(x) > 0 {
+				ptr = reflect.ValueOf(x).Pointer()
+			}
+		case []any:
+			if len(x) > 0 {
+				ptr = reflect.ValueOf(x).Pointer()
+			}
+		default:
+			return
+		}
+		if ptr != 0 {
+			if q, ok := seen[ptr]; ok {
+				found = map[string]any{"first": strings.Join(q, "."), "second": strings.Join(p, "."), "pattern": aliasPattern(p)}
+				return
+			}
+			seen[ptr] = append([]string(nil), p...)
+		}
+		switch x := v.(type) {
+		case map[string]any:
+			ks := make([]string, 0, len(x))
+			for k := range x {
+				ks = append(ks, k)
+			}
+			sort.Strings(ks)
+			for _, k := range ks {
+				walk(x[k], append(p, k))
+			}
+		case []any:
+			for i, e := range x {
+				walk(e, append(p, strconv.Itoa(i)))
+			}
+		}
+	}
+	walk(v, nil)
+	return found
+}
+
+// aliasPattern: the path with user-chosen names (second segment, and everything below the attribute) replaced by "*"
+func aliasPattern(p []string) string {
+	q := append([]string(nil), p...)
+	for i := range q {
+		if i == 1 || i >= 3 {
+			q[i] = "*"
+		}
+	}
+	return strings.Join(q, ".")
 }
 
 type decodeArgs struct {
@@ -260,7 +329,18 @@ func canonicalJudge(args, real, drv json.RawMessage) *core.Verdict {
 	}
 	json.Unmarshal(drv, &d)
 	if cr == "ok" {
-		if d.Fails != nil || !core.CanonEqual(real, drv) {
+		var ro struct {
+			Ok      json.RawMessage
+			Aliased *struct{ First, Second, Pattern string }
+		}
+		json.Unmarshal(real, &ro)
+		if ro.Aliased != nil {
+			// the model is a value model: it cannot disagree about sharing. Decided on the real heap: the canonical tree
+			// must be a tree, otherwise the short form is not the long form's model once a later stage edits one entry in place
+			return core.Fail("canonical-aliased-nodes:"+ro.Aliased.Pattern, fmt.Sprintf("transform.Canonical returns one mutable node at two positions: %s and %s", ro.Aliased.First, ro.Aliased.Second))
+		}
+		okOnly, _ := json.Marshal(map[string]any{"ok": ro.Ok})
+		if d.Fails != nil || !core.CanonEqual(okOnly, drv) {
 			return core.Disagree("Short.canonical ≠ transform.Canonical")
 		}
 		return nil
@@ -670,10 +750,16 @@ type pairArgs struct {
 	Long  any               `json:"long,omitempty"`
 	Files map[string]string `json:"files,omitempty"`
 	Class string            `json:"class,omitempty"`
+	// Other: a second document merged with the short (resp. long) one; Mode says how:
+	//   "file-after"  config files [short, other]      "doc-after"  one file, two YAML documents short --- other
+	//   "file-before" config files [other, short]      "doc-before" one file, other --- short
+	//   "extends"     one document: the short/long attribute in service xbase, `other`'s service s extends xbase
+	Other any    `json:"other,omitempty"`
+	Mode  string `json:"mode,omitempty"`
 }
 
-func loadDoc(root, name string) any {
-	req := core.LoadReq{ConfigFiles: []string{name}, ProjectName: "p", SkipConsistencyCheck: true}
+func loadDoc(root string, names ...string) any {
+	req := core.LoadReq{ConfigFiles: names, ProjectName: "p", SkipConsistencyCheck: true}
 	p, err := req.LoadIn(root)
 	if err != nil {
 		return map[string]any{"err": core.ScrubErr(err, root)}
@@ -694,14 +780,64 @@ func realPair(raw json.RawMessage) any {
 		lb, _ := json.Marshal(a.Long)
 		files["long.yaml"] = string(lb)
 	}
+	namesOf := func(n string) []string { return []string{n} }
+	if a.Other != nil {
+		ob, _ := json.Marshal(a.Other)
+		switch a.Mode {
+		case "extends":
+			// one document: the short (long) attribute sits in service xbase, service s extends xbase and carries the
+			// refinement (override.ExtendService on the raw values, before any Canonical)
+			for _, n := range []string{"short.yaml", "long.yaml"} {
+				c, ok := files[n]
+				if !ok {
+					continue
+				}
+				var d map[string]any
+				var o map[string]any
+				json.Unmarshal([]byte(c), &d)
+				json.Unmarshal(ob, &o)
+				svcs, _ := d["services"].(map[string]any)
+				osvcs, _ := o["services"].(map[string]any)
+				ns, _ := osvcs["s"].(map[string]any)
+				if svcs == nil || ns == nil {
+					return map[string]any{"bad": "extends mode needs services.s in both documents"}
+				}
+				svcs["xbase"] = svcs["s"]
+				ns["extends"] = map[string]any{"service": "xbase"}
+				svcs["s"] = ns
+				b, _ := json.Marshal(d)
+				files[n] = string(b)
+			}
+		case "file-after":
+			files["other.yaml"] = string(ob)
+			namesOf = func(n string) []string { return []string{n, "other.yaml"} }
+		case "file-before":
+			files["other.yaml"] = string(ob)
+			namesOf = func(n string) []string { return []string{"other.yaml", n} }
+		case "doc-after":
+			for _, n := range []string{"short.yaml", "long.yaml"} {
+				if c, ok := files[n]; ok {
+					files[n] = c + "\n---\n" + string(ob) + "\n"
+				}
+			}
+		case "doc-before":
+			for _, n := range []string{"short.yaml", "long.yaml"} {
+				if c, ok := files[n]; ok {
+					files[n] = string(ob) + "\n---\n" + c + "\n"
+				}
+			}
+		default:
+			return map[string]any{"bad": "mode " + a.Mode}
+		}
+	}
 	root, err := core.Materialize(files)
 	defer removeAll(root)
 	if err != nil {
 		return map[string]any{"bad": err.Error()}
 	}
-	out := map[string]any{"short": loadDoc(root, "short.yaml")}
+	out := map[string]any{"short": loadDoc(root, namesOf("short.yaml")...)}
 	if a.Long != nil {
-		out["long"] = loadDoc(root, "long.yaml")
+		out["long"] = loadDoc(root, namesOf("long.yaml")...)
 	}
 	return out
 }
@@ -994,6 +1130,10 @@ func init() {
 				return nil // rejected alike (e.g. container port 0: "missing a target port")
 			case r.Short.Err != "" && r.Long.Err != "":
 				return core.Disagree(fmt.Sprintf("generator: both documents rejected (%s): %s / %s", a.Attr, r.Short.Err, r.Long.Err))
+			case r.Short.Err != "" && a.Other != nil:
+				return core.Fail("short-rejected-merged:"+a.Attr, fmt.Sprintf("%s: short form rejected (%s) while the long form loads", a.Mode, r.Short.Err))
+			case r.Long.Err != "" && a.Other != nil:
+				return core.Fail("long-rejected-merged:"+a.Attr, fmt.Sprintf("%s: long form rejected (%s) while the short form loads", a.Mode, r.Long.Err))
 			case r.Short.Err != "":
 				return core.Fail("short-rejected:"+a.Attr, fmt.Sprintf("short form rejected (%s) while the long form loads", r.Short.Err))
 			case r.Long.Err != "":
@@ -1002,6 +1142,9 @@ func init() {
 			if !core.CanonEqual(r.Short.Ok, r.Long.Ok) {
 				if strings.HasPrefix(a.Attr, "x-key:") {
 					return core.Fail("mapping-key-x-prefix-taken-as-extension", fmt.Sprintf("%s: a key starting with x- is kept by the KEY=VALUE list form but moved to #extensions by the mapping form", a.Attr))
+				}
+				if a.Other != nil {
+					return core.Fail("short-ne-long-merged:"+a.Attr+":"+a.Mode, fmt.Sprintf("typed projects differ once a second document is merged (%s): short=%s long=%s", a.Mode, r.Short.Ok, r.Long.Ok))
 				}
 				return core.Fail("short-ne-long:"+a.Attr, fmt.Sprintf("typed projects differ: short=%s long=%s", r.Short.Ok, r.Long.Ok))
 			}
@@ -1028,6 +1171,72 @@ func init() {
 			json.Unmarshal(real, &r)
 			if r.Short.Err == "" {
 				return core.Fail("nearmiss-accepted:"+a.Attr+":"+a.Class, fmt.Sprintf("a short form outside the grammar was loaded: %s", r.Short.Ok))
+			}
+			return nil
+		},
+	})
+	core.Register("c03.twoDocs", &core.CheckDef{
+		Real: func(raw json.RawMessage) any {
+			var a struct {
+				Attr       string
+				Doc1, Doc2 json.RawMessage
+			}
+			json.Unmarshal(raw, &a)
+			wrap := func(v any) map[string]any {
+				return map[string]any{"services": map[string]any{"s": map[string]any{a.Attr: v}}}
+			}
+			c1, err := transform.Canonical(wrap(core.DecodeValRaw(a.Doc1)), false)
+			if err != nil {
+				return map[string]any{"err": "err", "stage": "canonical1"}
+			}
+			m, err := override.Merge(c1, wrap(core.DecodeValRaw(a.Doc2)))
+			if err != nil {
+				return map[string]any{"err": "err", "stage": "merge"}
+			}
+			r, err := transform.Canonical(m, false)
+			if err != nil {
+				return map[string]any{"err": "err", "stage": "canonical2"}
+			}
+			out := map[string]any{"ok": core.EncodeVal(r["services"].(map[string]any)["s"].(map[string]any)[a.Attr])}
+			if al := aliasScan(r); al != nil {
+				out["aliased"] = al
+			}
+			return out
+		},
+		DriverOp: "c03.twoDocs",
+		Judge: func(args, real, drv json.RawMessage) *core.Verdict {
+			if c := core.Class(real); c == "panic" || c == "fatal" || c == "hang" {
+				return crashVerdict(real)
+			}
+			var ro struct {
+				Ok      json.RawMessage
+				Err     string
+				Aliased *struct{ First, Second, Pattern string }
+			}
+			json.Unmarshal(real, &ro)
+			if ro.Aliased != nil {
+				return core.Fail("canonical-aliased-nodes:"+ro.Aliased.Pattern, fmt.Sprintf("after Canonical∘Merge∘Canonical one mutable node sits at two positions: %s and %s", ro.Aliased.First, ro.Aliased.Second))
+			}
+			var cmp []byte
+			if ro.Err != "" {
+				cmp, _ = json.Marshal(map[string]any{"err": "err"})
+			} else {
+				cmp, _ = json.Marshal(map[string]any{"ok": ro.Ok})
+			}
+			// the driver answers twice: the attribute-level model (twoDocsAt) and, under "whole", the whole-tree model
+			// (loadDocsC: canonical, Merge.merge from the root, canonical) with the attribute extracted
+			var dm map[string]json.RawMessage
+			if json.Unmarshal(drv, &dm) != nil {
+				return core.Disagree("malformed driver answer")
+			}
+			whole := dm["whole"]
+			delete(dm, "whole")
+			attrOnly, _ := json.Marshal(dm)
+			if !core.CanonEqual(cmp, attrOnly) {
+				return core.Disagree("Short.twoDocsAt ≠ Canonical∘Merge∘Canonical")
+			}
+			if whole == nil || !core.CanonEqual(cmp, whole) {
+				return core.Disagree("Short.loadDocsC ≠ Canonical∘Merge∘Canonical")
 			}
 			return nil
 		},
